@@ -10,6 +10,8 @@ import Drv.Side
 import Drv.Send
 import Drv.Pipe
 import Drv.PipeSpec
+import Drv.Reader
+import Spec.Wire
 open GoStd Driver
 
 structure DrvState where
@@ -17,6 +19,7 @@ structure DrvState where
   send : SendState := {}
   pipe : PipeWorld := {}
   pipeSpec : PipeSpecState := {}
+  prevOut : List (String × String) := []      -- tag ↦ implementation output (oracle `sameas`)
   dlgKeys : List (String × String) := []      -- C16: abstract key ↦ implementation id
 
 def execOp (st : DrvState) (toks : List String) : DrvState × String :=
@@ -30,6 +33,8 @@ def execOp (st : DrvState) (toks : List String) : DrvState × String :=
   | "pipe" :: op :: args =>
     let (w', out) := execPipe st.pipe op args
     ({ st with pipe := w' }, out)
+  | "frame" :: op :: args => (st, execReader "frame" op args)
+  | "udpbuf" :: op :: args => (st, execReader "udpbuf" op args)
   | "wire" :: _ => (st, "skip")     -- wire stage: real sockets and goroutines; oracles only
   | stream :: op :: args =>
     if ["rr", "route", "res", "pins", "pool"].contains stream then
@@ -64,6 +69,17 @@ def specOp (toks expect : List String) (impl : List String) : List String :=
       if impl == fields then [] else [s!"{id} expected-output-differs"]
     | "prefix" =>    -- implementation output must start with these tokens
       if fields.isPrefixOf impl then [] else [s!"{id} expected-prefix-differs"]
+    | "msgs" =>      -- impl = n=<k> <hex>…: exactly these messages, in order, each with its headers and body
+      let outs := impl.drop 1
+      if impl.head? != some s!"n={fields.length}" || outs.length != fields.length then [s!"{id} extracted-{impl.headD "?"}-expected-n={fields.length}"]
+      else
+        (fields.zip outs).flatMap fun (e, o) =>
+          (Spec.relayViolations (unhex e) (unhex o)).map (fun v => s!"{id} {v}") ++
+          (match Spec.readMsg (unhex e) true, Spec.readMsg (unhex o) false with
+           | some we, some wo =>
+             if Spec.stack Spec.isViaName we == Spec.stack Spec.isViaName wo &&
+                Spec.stack Spec.isRouteName we == Spec.stack Spec.isRouteName wo then [] else [s!"{id} routing-headers-changed"]
+           | _, _ => [s!"{id} unreadable"])
     | "reenc" =>     -- decode-then-encode is byte-identical: impl = ok <input> ...
       match toks, impl with
       | _ :: _ :: inp :: _, "ok" :: enc :: _ => if enc == inp then [] else [s!"{id} re-encoding-differs"]
@@ -104,6 +120,21 @@ partial def loop (ops impl : Array String) (i : Nat) (st : DrvState) (out : IO.F
     let segs := (line.splitOn " # ").drop 1
     let mut st'' := st'
     for seg in segs do
+      -- `spec=<id> remember <tag>` / `spec=<id> sameas <tag>`: two ops must have the same implementation output
+      if (words seg).getD 1 "" == "remember" then
+        st'' := { st'' with prevOut := ((words seg).getD 2 "?", implLine) :: st''.prevOut.take 2000 }
+        continue
+      if (words seg).getD 1 "" == "sameas" then
+        let id := (((words seg).headD "").splitOn "=").getD 1 "?"
+        match st''.prevOut.find? (fun e => e.1 == (words seg).getD 2 "?") with
+        | some (_, o) =>
+          if o != implLine then
+            IO.println s!"SPEC {i + 1} {id} output-depends-on-something-other-than-the-input"
+            s := s + 1
+        | none =>
+          IO.println s!"SPEC {i + 1} {id} sameas-without-remember"
+          s := s + 1
+        continue
       -- C16: implementation identifiers must be in bijection with the abstract dialog keys
       if (words seg).take 2 == ["spec=C16", "key"] then
         let want := (words seg).getD 2 "?"
